@@ -3,20 +3,20 @@ K = 'github.com/ProjectSerenity/firefly/kernel'
 
 PROP = {
     'pkg': K + '/device/acpi/aml',
-    'tests': [{'name': 'TestVerifC12', 'checks_quick': 120000, 'checks_thorough': 1500000}],
+    'tests': [{'name': 'TestVerifC12', 'checks_quick': 120000, 'checks_thorough': 1500000, 'shrinktime': '40s'}],
     'fuzz': [{'name': 'FuzzVerifC12', 'seconds': 150}],
     'rule': 'three sources, every parse executed in a persistent child process (a stack overflow is a fatal error in Go): '
             '(a) byte strings biased to opcode bytes, name characters, prefix bytes and PkgLength lead bytes; (b) '
             'structure-aware mutations (truncate, bit flip, byte substitution, PkgLength corruption, self-referential '
             'names, splice, swap, duplicate, insert) of well-formed programs from the C11 generator, optionally after valid '
             'earlier tables; (c) the same mutations of the three shipped tables. Oracle in the worker: ParseAML returns nil '
-            'or its parse error; no panic, no process death, verdict within 20 s (a hang is re-checked twice in fresh '
+            'or its parse error; no panic, no process death, verdict within 6 s (a hang is re-checked twice in fresh '
             'workers); every []byte stored in the tree lies inside a table; parent/child/sibling links agree in both '
             'directions, no cycle, no freed object linked; PrettyPrint of a successfully parsed tree does not panic. '
             'Non-trivial = the parser got past the first object (>= 2 objects created beyond the predefined scopes).',
     'technique': 'rapid generation + structure-aware mutation with process-isolated oracle; native coverage-guided fuzzing in the thorough tier',
     'level_text': 'Generated and mutated inputs are parsed by the real parser in an isolated worker; memory-safety style post-conditions (slice containment, tree link invariants, printability) and termination are checked for both accepted and rejected inputs. Exploration; coverage-guided fuzzing extends it in the thorough tier.',
-    'level_note': 'A panic in PrettyPrint after a REJECTED parse is only counted (the kernel never prints such a tree). "Proportional bound" is approximated by a 20 s deadline for inputs of at most a few hundred KiB.',
+    'level_note': 'A panic in PrettyPrint after a REJECTED parse is only counted (the kernel never prints such a tree). "Proportional bound" is approximated by a 6 s deadline for inputs of at most a few hundred KiB.',
     'assumptions': ['the table header is well-formed (Length = actual length); only the AML body is hostile'],
     'timeout_quick': 900,
 }
